@@ -32,6 +32,20 @@ Theorem match_independent : ∀ ops t f, topic_ok (levels t) = true →
 Proof. exact walk_member. Qed.
 Print Assumptions match_independent.
 
+From Wasp Require Import Model.DState Model.IdPool Model.Mount Model.Node Proofs.NodeFacts.
+(** In the node: a log entry is written once per recipient entry (one per matching added
+    subscription whose peer is this node) whose session is in the local registry, with the
+    subscription's QoS and the mount point trimmed, and to no other connection. *)
+Theorem deliver_exact : ∀ bad recips n m, Forall (λ rq : string * Z, rq.2 = 0%Z) recips →
+  send bad n recips m = (n, flat_map (q0_out bad n m) recips).
+Proof. exact send_q0_exact. Qed.
+Print Assumptions deliver_exact.
+Theorem deliver_to_no_other : ∀ bad recips n m o, o ∈ (send bad n recips m).2 →
+  ∃ r q s mid, (r, q) ∈ recips ∧ alookup r (n_reg n) = Some s ∧
+    o = Out (ss_conn s) (OPublish (trim_mp (ss_mp s) (l_topic m)) (l_payload m) q (l_retain m) (l_dup m) mid).
+Proof. exact send_only_recipients. Qed.
+Print Assumptions deliver_to_no_other.
+
 (** non-vacuity and the MQTT 3.1.1 examples (section 4.7.1.2 / 4.7.1.3) *)
 Example mmatch_examples :
   map (λ ft, mmatch (levels ft.1) (levels ft.2))
